@@ -978,6 +978,12 @@ func (s *Service) runWith(wid string, cb func()) {
 	}
 
 	s.mu.Lock()
+	// A nil workqueue signals that the service is closing. Do not revive it,
+	// or workers busy with a callback would never see the signal.
+	if s.workqueue == nil {
+		s.mu.Unlock()
+		return
+	}
 	// Get current work queue for the resource
 	var w *work
 	var ok bool
